@@ -34,12 +34,22 @@ Definition tguard (ex : list exemption) (accs : list access) (x : loc) : option 
 Definition lstr (l : lname) : string := (fst l ++ "." ++ snd l)%string.
 Definition node_str (x : node) : string := match x with NLock l => lstr l | NGroup g => g end.
 Definition has_edge (es : list edge) (a b : string) : Prop := exists w, In (a, b, w) es.
-Definition wconforms (es : list edge) (gs : list group) (prog : list wev) : Prop :=
-  (forall p l r, prog = p ++ WE (Acq l) :: r \/ prog = p ++ WE (RAcq l) :: r ->
+Definition gconforms (es : list edge) (gs : list group) (prog : list gev) : Prop :=
+  (forall p l r, prog = p ++ GE (Acq l) :: r \/ prog = p ++ GE (RAcq l) :: r ->
      (forall h, In h (scan (evs p)) -> has_edge es (lstr (snd (fst h))) (lstr (snd l))) /\
      (forall g, In g gs -> has_edge es (snd g) (lstr (snd l)))) /\
-  (forall p g r, prog = p ++ WWait g :: r ->
+  (forall p g r, prog = p ++ GWait g :: r ->
      (forall h, In h (scan (evs p)) -> has_edge es (lstr (snd (fst h))) (snd g)) /\
      (forall g', In g' gs -> has_edge es (snd g') (snd g))).
 (* the rank the table's graph induces on the machine's nodes *)
 Definition table_rank (es : list edge) (x : node) : nat := rank_of es (node_str x).
+
+(* ---- the part of the table of the pinned source (commit 5201509) that made the wait-for graph cyclic, kept by hand:
+   Shutdown waits for the cluster's WaitGroup holding shutdownLock; the goroutines of watchPeers and of ready(), which
+   the WaitGroup covers, take shutdownLock; ready() also calls Shutdown itself (as printed by Diag/C18.v on that tree) ---- *)
+Definition pinned_waits : list wait_site :=
+  [("ipfscluster.Cluster.Shutdown", ["ipfscluster.Cluster.shutdownLock"], "wg:ipfscluster.Cluster.wg", "cluster.go:779")]%string.
+Definition pinned_covers : list edge :=
+  [("wg:ipfscluster.Cluster.wg", "ipfscluster.Cluster.shutdownLock", "goroutine ipfscluster.Cluster.run cluster.go:587 > Cluster.watchPeers");
+   ("wg:ipfscluster.Cluster.wg", "ipfscluster.Cluster.shutdownLock", "goroutine ipfscluster.NewCluster cluster.go:205 > Cluster.ready");
+   ("wg:ipfscluster.Cluster.wg", "wg:ipfscluster.Cluster.wg", "goroutine ipfscluster.NewCluster cluster.go:205 > Cluster.ready > Cluster.Shutdown")]%string.
